@@ -21,7 +21,7 @@ Open Scope N_scope.
 
 (* the ten request parsers, TCP framing.  [parse_read_req_tcp fc] with fc = 1,2,3,4 are
    Parse{ReadCoils,ReadDiscreteInputs,ReadHoldingRegisters,ReadInputRegisters}RequestTCP; the
-   theorem holds for every value of the parameter *)
+   theorem holds for every value of that argument *)
 Theorem C10_request_parsers_tcp : forall fc,
   safe (parse_read_req_tcp fc) /\ safe parse_wcoil_req_tcp /\ safe parse_wreg_req_tcp /\
   safe parse_wcoils_req_tcp /\ safe parse_wregs_req_tcp /\ safe parse_srvid_req_tcp /\
@@ -77,7 +77,7 @@ Proof. exact exception_recognisers_safe. Qed.
 Print Assumptions C10_exception_recognisers.
 
 (* ---------- summary: one statement over the enumeration of all entry points ---------- *)
-(* [entry_point] enumerates the 35 model entry points (7 of them with a function-code parameter,
+(* [entry_point] enumerates the 35 model entry points (7 of them with a function-code argument,
    the classifier with its flag); [run_ep e d] runs entry point [e] on [d] and injects the value
    into the disjoint union [pout] of the eight result types (a constructor, so nothing is lost:
    [map_ok_inj]). *)
